@@ -58,7 +58,10 @@ int main(void) {
       } else printf("ERR %s", mjg_last_error);
     } else if (!strcmp(op, "factor")) {
       int nv, nC0;
-      if (scanf("%d", &nv) != 1 || nv > MAXNV || !rdi(par, nv) || !rdi(simple, nv) || scanf("%d", &nC0) != 1 || !rdd(vals, nC0) || !rdd(vx, nv)) return 2;
+      int nvec, nidx;
+      static mjtNum X[8*MAXNV], X2[8*MAXNV]; static int idx[MAXNV];
+      if (scanf("%d", &nv) != 1 || nv > MAXNV || !rdi(par, nv) || !rdi(simple, nv) || scanf("%d", &nC0) != 1 || !rdd(vals, nC0) || !rdd(vx, nv) ||
+          scanf("%d", &nvec) != 1 || nvec > 8 || !rdd(X, nvec*nv) || scanf("%d", &nidx) != 1 || nidx > nv || !rdi(idx, nidx)) return 2;
       int nM, nC, nD; counts(nv, &nM, &nC, &nD);
       if (MJG_TRY) {
         mj_makeDofDofSparse(nv, nC, nD, nM, par, simple, rownnz, rowadr, NULL, colind, 1, 0, remaining);
@@ -70,6 +73,17 @@ int main(void) {
         mj_factorI(vals2, dinv, nv, rownnz, rowadr, colind, NULL); prd(vals2, nC); prd(dinv, nv);
         memcpy(vy, vx, sizeof(mjtNum)*nv);
         mj_solveLD(vy, vals2, dinv, nv, 1, rownnz, rowadr, colind, NULL); prd(vy, nv);
+        // batch of nvec right-hand sides (stored one after the other)
+        memcpy(X2, X, sizeof(mjtNum)*nvec*nv);
+        mj_solveLD(X2, vals2, dinv, nv, nvec, rownnz, rowadr, colind, NULL); prd(X2, nvec*nv);
+        // dof skipping: factor and solve only the dofs listed in idx (whole trees, ascending)
+        static mjtNum vals3[MAXNV*MAXNV], dinv3[MAXNV];
+        memcpy(vals3, vals, sizeof(mjtNum)*nC); for (int i = 0; i < nv; i++) dinv3[i] = -7;
+        mj_factorI(vals3, dinv3, nidx, rownnz, rowadr, colind, idx); prd(vals3, nC); prd(dinv3, nv);
+        memcpy(vy, vx, sizeof(mjtNum)*nv);
+        mj_solveLD(vy, vals3, dinv3, nidx, 1, rownnz, rowadr, colind, idx); prd(vy, nv);
+        memcpy(X2, X, sizeof(mjtNum)*nvec*nv);
+        // note: with an index the batch stride is still the FIRST argument count passed as nv
         MJG_END;
       } else printf("ERR %s", mjg_last_error);
     } else if (!strcmp(op, "model")) {
@@ -207,6 +221,17 @@ int main(void) {
         prd(v, nv);
         mj_mulM(m, d, w, v); prd(w, nv);
         mj_solveM(m, d, u, w, 1); prd(u, nv);                       // solveM(mulM v)
+        {
+          // batch solve: mj_solveM on 3 right-hand sides at once [mulM v, v, bias-like]; mj_solveM2 / mj_mulM2
+          mjtNum* Y = (mjtNum*)malloc(sizeof(mjtNum)*(3*nv+1)), *Z = (mjtNum*)malloc(sizeof(mjtNum)*(3*nv+1)), *sq = (mjtNum*)malloc(sizeof(mjtNum)*(nv+1));
+          for (int i = 0; i < nv; i++) { Y[i] = w[i]; Y[nv+i] = v[i]; Y[2*nv+i] = mjg_range(r, -3, 3); }
+          prd(Y, 3*nv);
+          mj_solveM(m, d, Z, Y, 3); prd(Z, 3*nv);
+          for (int i = 0; i < nv; i++) sq[i] = mju_sqrt(d->qLDiagInv[i]);
+          mj_solveM2(m, d, Z, Y, sq, 3); prd(Z, 3*nv);
+          mj_mulM2(m, d, Z, v); prd(Z, nv);
+          free(Y); free(Z); free(sq);
+        }
         prd(d->qfrc_bias, nv);
         mj_rne(m, d, 0, w); prd(w, nv);                              // rne(0)
         for (int i = 0; i < nv; i++) d->qacc[i] = v[i];
